@@ -32,6 +32,11 @@ namespace std { constexpr bool vf_ice() noexcept { return true; } }
 #endif
 
 struct vf_exc { int code; };
+#ifdef VF_FORCE_CONSTANT_EVALUATED
+#define VF_CE 1
+#else
+#define VF_CE 0
+#endif
 
 #ifndef VF_MAXCAP
 #define VF_MAXCAP 16
@@ -216,7 +221,12 @@ struct vf_sv<gch::small_vector<T, N, A>> {
   static void install(V& v, unsigned cap, unsigned size, const uint32_t *vals) {
     T *p;
     typename V::base& b = (typename V::base&)v;   // C-style cast reaches the private base with either compiler
-    if (cap > N) p = b.unchecked_allocate((typename V::size_ty)cap);
+    if (VF_CE) {
+      // forced constant evaluation: the "inline" buffer is a heap block of N elements obtained by the constructor
+      if (cap > N) { b.deallocate(b.data_ptr(), N); p = b.unchecked_allocate((typename V::size_ty)cap); }
+      else p = b.data_ptr();
+    }
+    else if (cap > N) p = b.unchecked_allocate((typename V::size_ty)cap);
     else p = b.storage_ptr();
     for (unsigned i = 0; i < size; ++i) E::make(static_cast<void *>(p + i), vals[i]);
     b.set_data(p, (typename V::size_ty)cap, (typename V::size_ty)size);
@@ -231,6 +241,9 @@ struct vf_sv<gch::small_vector<T, N, A>> {
     vf_assert(sz <= cap, "C02: size() <= capacity()");
     vf_assert(cap >= N, "C02: capacity() >= inline_capacity()");
     vf_assert(cap <= (v.max_size() > N ? v.max_size() : N), "C02: capacity() <= max(max_size(), inline_capacity())");
+    if (VF_CE) {
+      vf_assert(vf_block_is(d, cap, id_of(v)), "C08: under constant evaluation data() is an allocation of exactly capacity() elements");
+    } else {
     vf_assert(v.inlined() == (cap == N), "C02: inlined() iff capacity() == inline_capacity()");
     if (N == 0) {
       vf_assert((cap == N) == (d == nullptr), "C02: zero inline capacity: data() null iff inlined");
@@ -239,6 +252,7 @@ struct vf_sv<gch::small_vector<T, N, A>> {
     }
     if (cap > N)
       vf_assert(vf_block_is(d, cap, id_of(v)), "C02: heap data() is a live allocator block of exactly capacity() elements owned by an equal allocator");
+    }
     vf_assert(v.inlinable() == (sz <= N), "C02: inlinable() iff size() <= inline_capacity()");
     vf_assert((std::size_t)(v.end() - v.begin()) == sz, "C02: end()-begin() == size()");
     vf_assert((std::size_t)(v.cend() - v.cbegin()) == sz, "C02: cend()-cbegin() == size()");
